@@ -18,8 +18,9 @@ TECHNIQUE = ("Lean 4 theorems over the real-number reading of a twin model (HasD
              "calculus for the closed-form ray integrals) + constants translator + Float-twin differential run "
              "with root-finder results checked as certificates + independent RK4 ray-ODE oracle")
 RULE = ("ices {Antarctic, Arasim, Greenland, random (n0,k,a)} x endpoint pairs drawn in labelled classes "
-        "(shallow/shallow, deep/deep, across z_uniform, near-vertical incl. the K3 region, within 1% of "
-        "direct_r_max / indirect_r_max, source above / below receiver) x dz in {0.1,1,5} x "
+        "(shallow/shallow, deep/deep, across z_uniform, near-vertical incl. the K3 region, exactly vertical pairs "
+        "(rho == 0, both orders), an endpoint exactly on the top / bottom of the valid range or on z_uniform, equal "
+        "depths, within 1% of direct_r_max / indirect_r_max, source above / below receiver) x dz in {0.1,1,5} x "
         "{SpecializedRayTracer, BasicRayTracer}; plus formula-level requests (z, beta, deep) for the three "
         "closed forms in all three branches and tracer-level requests (r functions at random angles, angle "
         "conversion, expected_solutions); non-trivial = the tracer returned a solution or the formula request "
@@ -47,7 +48,11 @@ LEVEL_NOTE = ("floating-point rounding is not modelled (tolerance run; the ampli
               "tan(arcsin(beta/n(z))) and arbitrary positive cell counts, C01_basicIndirectR_unfold shows the model's "
               "_indirect_r has that form with f = basicTan); _z_int_uniform_correction, z_integral and the tracer "
               "methods are multi-statement and tied by correspondence only, not by the formula translator; "
-              "near-vertical branch |beta|<=beta_tolerance is a stated approximation (known finding K3); known "
+              "near-vertical branch |beta|<=beta_tolerance is a stated approximation (known finding K3; in the search K3 "
+              "only explains a horizontal miss <= r(beta_tolerance), a length/tof deficit <= sec(theta_max)-1 and a "
+              "direction error <= beta_tolerance/n_min - vertical sense of the directions, arrival at the receiver "
+              "depth, classification and the vertical line integrals are checked inside the K3 band and for rho == 0 "
+              "like everywhere else); known "
               "findings K7 (BasicRayTracer._indirect_r jumps when a trapezoid leg changes its cell count), K8 "
               "(SpecializedRayTracer link_range interpolation next to max_angle) are recorded, their input classes are "
               "recognised from the implementation alone and any miss outside them is a violation; not claimed: depths "
@@ -121,7 +126,7 @@ def z_uniform_impl(ice):
 
 
 GEOM_CLASSES = ["shallow", "deep", "across", "near_vertical", "k3_region", "near_direct_max", "near_indirect_max",
-                "equal_depth"]
+                "equal_depth", "vertical", "bounds"]
 
 
 def geometry(run, ice, cls_name):
@@ -169,6 +174,23 @@ def geometry(run, ice, cls_name):
         if rmax is None or not np.isfinite(rmax) or rmax > 6000 or rmax < 5:
             return None
         rho = float(rmax) * (1 + rng.choice([-1, 1]) * rng.uniform(0.0005, 0.01))
+    elif cls_name == "vertical":
+        # exactly vertically aligned endpoints (same x and y, rho == 0.0), both orders (the swap below)
+        za, zb = rng.uniform(max(lo + 5, -1800), -3), rng.uniform(max(lo + 5, -1800), -3)
+        if abs(za - zb) < 20:
+            zb = za - 40 if za - 40 > lo else za + 40
+        rho = 0.0
+    elif cls_name == "bounds":
+        # an endpoint exactly on a distinguished depth: top / bottom of the valid range, z_uniform
+        special = rng.choice([float(hi), float(ice.valid_range[0]), z_uniform_impl(ice)])
+        za = special
+        zb = rng.uniform(max(lo + 5, -1500), -3)
+        if abs(za - zb) < 20:
+            zb = zb - 40 if zb - 40 > lo else zb + 40
+        rho = rng.uniform(10, 800)
+        if rng.random() < 0.5:
+            za, zb = zb, za
+        return float(za), float(round(zb, 3)) if za == special else float(zb), float(rho)
     elif cls_name == "equal_depth":
         # shallow only: in (numerically) uniform deep ice a ray between equal depths turns with
         # alpha = n0^2 - beta^2 ~ 1e-8, where every closed form is rounding noise
@@ -226,6 +248,22 @@ def vertical_r(ice, z_from, z_to, direct, beta):
     return seg(z_from, hi) + seg(z_to, hi)
 
 
+def k3_slacks(ice, z_from, z_to, direct):
+    """what known finding K3 can explain (and nothing more): inside the K3 class both rho and the true radial
+    distance of the returned ray lie in [0, r(beta_tolerance)], so the horizontal miss is at most that; path
+    length and tof are the vertical ones, short of the true ones by at most the factor sec(theta_max) - 1 with
+    sin(theta_max) = beta_tolerance / n_min; direction components are off by at most beta_tolerance / n_min.
+    -> (d_r, d_len, d_tof, d_direction)"""
+    tol = PINNED_BETA_TOLERANCE
+    hi = ice.valid_range[1]
+    top = max(z_from, z_to) if direct else hi
+    n_min = float(ice.n0 - ice.k * math.exp(ice.a * top))
+    lvert = abs(z_to - z_from) if direct else (hi - z_from) + (hi - z_to)
+    sec_excess = 1.0 / math.sqrt(1.0 - (tol / n_min) ** 2) - 1.0
+    return (vertical_r(ice, z_from, z_to, direct, tol) * (1 + 1e-6) + 1e-6, 1.01 * lvert * sec_excess + 1e-9,
+            1.01 * lvert * ice.n0 / C * sec_excess + 1e-17, 1.01 * tol / n_min)
+
+
 def in_k3_class(ice, z_from, z_to, rho, direct):
     """input class of known finding K3 (Specialized tracer only): the endpoints are so nearly above one
     another that the true ray has |beta| <= beta_tolerance"""
@@ -281,6 +319,14 @@ def rk4_trace(ice, z_from, theta0, z_to, direct, h=0.5, smax=2.0e5):
         return {"fail": "indirect ray launched downward"}
     if direct and z_from == z_to:
         return {"fail": "direct ray between equal depths"}
+    if phase == 0 and y[1] >= hi:
+        # the source sits on the top boundary: an upward (indirect) ray is reflected on the spot
+        y = (y[0], hi, math.pi - y[2], y[3])
+        reflected = True
+        z_top = hi
+        phase = 1
+        if z_to >= hi:
+            return {"fail": "indirect ray between two points on the top boundary"}
     while s < smax:
         y2 = step(y, h)
         if phase == 0:
@@ -297,6 +343,9 @@ def rk4_trace(ice, z_from, theta0, z_to, direct, h=0.5, smax=2.0e5):
                         y = (y[0], hi, math.pi - y[2], y[3])
                         reflected = True
                         z_top = hi
+                        if z_to >= hi:            # receiver on the top boundary: arrives at the reflection point
+                            return {"r": y[0], "s": s, "tof": y[3], "theta": y[2], "turned": turned,
+                                    "reflected": reflected, "z_top": z_top}
                         break
                     if cos(ys[2]) <= 0:           # refractive turn-over below the surface
                         turned = True
@@ -331,14 +380,14 @@ def rk4_trace(ice, z_from, theta0, z_to, direct, h=0.5, smax=2.0e5):
                 y = ys
                 s += hs
             return {"fail": "direct ray turned over before reaching the receiver depth", "s": s, "z": y[1]}
-        if direct and y2[1] > hi:
-            return {"fail": "direct ray left the ice before reaching the receiver depth", "s": s}
         if (y[1] - z_to) * (y2[1] - z_to) <= 0 and y[1] != z_to:
             hh = land(y, h, lambda u: u[1] - z_to)
             y = step(y, hh)
             s += hh
             return {"r": y[0], "s": s, "tof": y[3], "theta": y[2], "turned": turned, "reflected": reflected,
                     "z_top": z_top}
+        if direct and y2[1] > hi:
+            return {"fail": "direct ray left the ice before reaching the receiver depth", "s": s}
         if y2[1] < float(ice.valid_range[0]) - 1:
             return {"fail": "ray left the ice through the bottom", "s": s}
         y = y2
@@ -1020,10 +1069,26 @@ def check_solution(run, name, ice, cname, A, B, tname, dz, t, p, h):
                        what="emitted direction is not (theta0, azimuth towards the receiver)")
         return
     res = rk4_trace(ice, zf, th, zt, direct, h=h)
+    # sense of the directions (holds in every class, the K3 band and exactly vertical pairs included): a direct
+    # ray heads vertically towards the receiver at both ends, an indirect ray starts upward and arrives downward
+    if direct:
+        sgn = 1.0 if zt > zf else -1.0
+        sense_ok = zt != zf and em[2] * sgn > 0 and rc[2] * sgn >= -1e-9
+        want = "vertical components of emitted and received direction have the sign of z_to - z_from (%+d)" % sgn
+    else:
+        sense_ok = em[2] > 0 and rc[2] <= 1e-9
+        want = "emitted direction points upward, received direction downward"
+    if not sense_ok:
+        run.fail_input("direction-sense", inp,
+                       observed={"emitted": list(em), "received": list(rc), "rk4_from_source": res},
+                       expected=want, what="the reported directions do not have the vertical sense of a %s ray "
+                       "from z=%g to z=%g" % ("direct" if direct else "indirect", zf, zt))
+        return
     if "fail" in res:
+        # K3 only explains a small horizontal miss, never a ray that does not reach the receiver depth
         run.fail_input("no-arrival", inp, observed=res, expected="ray arrives at the receiver depth",
                        what="launched in the reported direction the ray never reaches the receiver: " + res["fail"],
-                       finding_key=fk)
+                       finding_key=fk if fk != "K3" else None)
         return
     beta = float(ice.index(zf)) * math.sin(th)
     if tname == "specialized":
@@ -1049,23 +1114,39 @@ def check_solution(run, name, ice, cname, A, B, tname, dz, t, p, h):
         tol_r = 1e-6 * max(1.0, rho) + 1.5 * dr + 1e-5
         tol_l = 1e-7 * L + 1.5 * dl + 1e-5
         tol_t = 1e-7 * tof + 1.5 * dt + 1e-13
+    # in the K3 class the finding explains residues up to k3_slacks(...) and nothing beyond them
+    k3r, k3l, k3t, k3d = k3_slacks(ice, zf, zt, direct) if k3 else (0.0, 0.0, 0.0, 0.0)
+
+    def key_for(err, tol, extra):
+        """finding key under which a residue `err` may be reported, or False when it is within tolerance"""
+        if abs(err) <= tol:
+            return False
+        if k3:
+            return "K3" if abs(err) <= tol + extra else None
+        return fk
     miss = res["r"] - rho
-    if not abs(miss) <= tol_r:
+    kf = key_for(miss, tol_r, k3r)
+    if kf is not False:
         run.fail_input("arrival-miss", inp, observed={"r_at_receiver_depth": res["r"], "miss": miss},
-                       expected={"rho": rho, "tolerance": tol_r},
+                       expected={"rho": rho, "tolerance": tol_r, "k3_allowance": k3r},
                        what="the ray launched in the reported direction misses the receiver by %.3g m" % miss,
-                       finding_key=fk)
-        return
-    if not abs(res["s"] - L) <= tol_l:
+                       finding_key=kf)
+        if kf is None or not k3:
+            return
+    kf = key_for(res["s"] - L, tol_l, k3l)
+    if kf is not False:
         run.fail_input("path-length", inp, observed={"path_length": L}, expected={"rk4_arc_length": res["s"],
-                       "tolerance": tol_l}, what="reported path length is not the arc length of the ray",
-                       finding_key=fk)
-        return
-    if not abs(res["tof"] - tof) <= tol_t:
+                       "tolerance": tol_l, "k3_allowance": k3l},
+                       what="reported path length is not the arc length of the ray", finding_key=kf)
+        if kf is None or not k3:
+            return
+    kf = key_for(res["tof"] - tof, tol_t, k3t)
+    if kf is not False:
         run.fail_input("tof", inp, observed={"tof": tof}, expected={"rk4_integral_n_ds_over_c": res["tof"],
-                       "tolerance": tol_t}, what="reported time of flight is not the integral of n ds / c",
-                       finding_key=fk)
-        return
+                       "tolerance": tol_t, "k3_allowance": k3t},
+                       what="reported time of flight is not the integral of n ds / c", finding_key=kf)
+        if kf is None or not k3:
+            return
     # Snell at both ends + reported received direction is the ray's direction at arrival
     n_from, n_to = float(ice.index(zf)), float(ice.index(zt))
     b0 = n_from * math.hypot(em[0], em[1])
@@ -1078,10 +1159,10 @@ def check_solution(run, name, ice, cname, A, B, tname, dz, t, p, h):
                       math.cos(res["theta"])])
     # direction tolerance: angle error from the same budgets (d theta ~ d r / path scale), generous but far
     # below a flipped sign
-    if not np.allclose(rc, r_exp, atol=1e-4 + 10 * tol_r / max(L, 1.0)):
+    if not np.allclose(rc, r_exp, atol=1e-4 + 10 * tol_r / max(L, 1.0) + 2 * k3d):
         run.fail_input("received-direction", inp, observed=list(rc), expected=list(r_exp),
                        what="reported received direction is not the direction of the ray at arrival",
-                       finding_key=fk)
+                       finding_key=fk if fk != "K3" else None)
         return
     # the first solution never turns; the second turns below the surface or reflects off it
     if direct and (res["turned"] or res["reflected"]):
@@ -1124,8 +1205,12 @@ def search(run, deep):
             run.fail_input("solution-count", inp0, observed=len(sols), expected="0 or 2 solutions",
                            what="tracer returned %d solutions" % len(sols))
             continue
-        if sols and not (sols[0].direct is True or sols[1].direct is False):
-            pass
+        if sols and (bool(sols[1].direct) or [bool(p.direct) for p in sols] !=
+                     [bool(t.expected_solutions[0]), False]):
+            run.fail_input("classification", inp0, observed=[bool(p.direct) for p in sols],
+                           expected=[bool(t.expected_solutions[0]), False],
+                           what="direct/indirect flags of the solutions do not match expected_solutions")
+            continue
         for p in sols:
             check_solution(run, name, ice, cname, A, B, tname, dz, t, p, h)
         run.traces += len(sols)
